@@ -25,12 +25,6 @@ Definition count {K A} `{Countable K} (P : A -> bool) (m : gmap K A) : N :=
 
 Definition names_of (s : st) : gset string := list_to_set ((fun kv => sv_name kv.2) <$> map_to_list (services s)).
 
-Definition usage_ids : list string :=
-  ["nodes"; "services"; "service-names"; connect_usage KProxy; connect_usage KMeshGW; connect_usage KTermGW;
-   connect_usage KIngressGW; native_usage; billable_usage;
-   "config-entries-terminating-gateway"; "config-entries-ingress-gateway"; "config-entries-service-defaults";
-   "config-entries-service-resolver"].
-
 Definition recompute_usage (s : st) (id : string) : N :=
   if bool_decide (id = "nodes") then N.of_nat (size (nodes s))
   else if bool_decide (id = "services") then N.of_nat (size (services s))
@@ -39,13 +33,13 @@ Definition recompute_usage (s : st) (id : string) : N :=
   else if bool_decide (id = connect_usage KMeshGW) then count (fun v => bool_decide (sv_kind v = KMeshGW)) (services s)
   else if bool_decide (id = connect_usage KTermGW) then count (fun v => bool_decide (sv_kind v = KTermGW)) (services s)
   else if bool_decide (id = connect_usage KIngressGW) then count (fun v => bool_decide (sv_kind v = KIngressGW)) (services s)
-  else if bool_decide (id = native_usage) then count (fun v => sv_native v) (services s)
+  else if bool_decide (id = native_usage) then count sv_native (services s)
   else if bool_decide (id = billable_usage)
        then count (fun v => bool_decide (sv_kind v = KTypical) && negb (bool_decide (sv_name v = consul_name))) (services s)
-  else if bool_decide (id = "config-entries-terminating-gateway") then count (fun c => bool_decide (conf_kind c = "terminating-gateway")) (confs s)
-  else if bool_decide (id = "config-entries-ingress-gateway") then count (fun c => bool_decide (conf_kind c = "ingress-gateway")) (confs s)
-  else if bool_decide (id = "config-entries-service-defaults") then count (fun c => bool_decide (conf_kind c = "service-defaults")) (confs s)
-  else if bool_decide (id = "config-entries-service-resolver") then count (fun c => bool_decide (conf_kind c = "service-resolver")) (confs s)
+  else if bool_decide (id = conf_usage "terminating-gateway") then count (fun c => bool_decide (conf_kind c = "terminating-gateway")) (confs s)
+  else if bool_decide (id = conf_usage "ingress-gateway") then count (fun c => bool_decide (conf_kind c = "ingress-gateway")) (confs s)
+  else if bool_decide (id = conf_usage "service-defaults") then count (fun c => bool_decide (conf_kind c = "service-defaults")) (confs s)
+  else if bool_decide (id = conf_usage "service-resolver") then count (fun c => bool_decide (conf_kind c = "service-resolver")) (confs s)
   else 0.
 
 Definition stored_usage (s : st) (id : string) : N := default 0 (usage s !! id).
